@@ -444,8 +444,8 @@ Proof.
     replace (w0 ++ (wi ++ txt v) ++ wz) with ((w0 ++ wi) ++ txt v ++ wz)
       by (rewrite <- !app_assoc; reflexivity).
     apply case_e_one; auto. apply ws_app; assumption.
-  - cbn [map]. rewrite join_cons2. fold (map (fun v => wi ++ txt v) (v' :: l)).
-    change (map (fun v0 : jv => wi ++ txt v0) l) with (map (fun v => wi ++ txt v) l).
+  - cbn [map]. rewrite join_cons2.
+    change ((wi ++ txt v') :: map (fun v => wi ++ txt v) l) with (map (fun v => wi ++ txt v) (v' :: l)).
     set (J := join ([44] ++ w0) (map (fun v => wi ++ txt v) (v' :: l))) in *.
     replace (w0 ++ ((wi ++ txt v) ++ ([44] ++ w0) ++ J) ++ wz)
       with ((w0 ++ wi) ++ txt v ++ [] ++ [44] ++ (w0 ++ J ++ wz))
